@@ -16,7 +16,7 @@ exec(open(os.path.join(HERE, "tools", "manifest_table.py")).read())
 man = {
  "version": 1,
  "setup_cmd": "./vcheck setup",
- "hooks": {"guard": "SIGNAC_VERIF", "enable": "no source hooks: signac is pure Python and is imported from /repo's working tree by every check (PYTHONPATH=/repo); instrumentation is external (LD_PRELOAD libc shim, harness-side replacement of uuid4/listdir/ThreadPool in child processes)",
+ "hooks": {"guard": "SIGNAC_VERIF", "enable": "no source hooks: signac is pure Python and is imported from /repo's working tree by every check (PYTHONPATH=/repo); instrumentation is external (LD_PRELOAD libc shim, harness-side replacement of uuid4 / listdir / ThreadPool and, inside the forked engine-T children only, of the RLock / Lock objects and factories of signac and synced_collections modules)",
            "baseline_off_cmd": "cd /repo && /venv/bin/python -m pytest -ra -q -p no:cacheprovider --timeout=900 --continue-on-collection-errors",
            "source_commits": [], "add_only": True},
  "engines": ENGINES,
